@@ -377,7 +377,10 @@ func parseStatusIntFromUnstructured(object *unstructured.Unstructured, field str
 func parseStatusStringFromUnstructured(object *unstructured.Unstructured, field string) string {
 	value, found, err := unstructured.NestedFieldNoCopy(object.Object, "status", field)
 	if err == nil && found {
-		return value.(string)
+		// a status field of another type (a CRD the controllers only know as unstructured) is treated as absent
+		if s, ok := value.(string); ok {
+			return s
+		}
 	}
 	return ""
 }
